@@ -9,6 +9,7 @@
 // order is an interleaving of the per-thread call orders; multi-message packets respect
 // the largest capacity in force.
 #include "harness/vf.hpp"
+#include "harness/normal.hpp"
 #include "harness/sends.hpp"
 #include "harness/bidib_cxx.h"
 #include "ref/msgs.hpp"
@@ -72,8 +73,19 @@ bool is_interleaving(const std::vector<ref::Msg> &wire, const std::vector<std::v
 }
 
 void prop(DP &dp, const ref::Bytes &sched, Ctx &ctx) {
-	Session s;
-	s.world(sched);
+	Session own;
+	Normal n;
+	// "live capacity" cases run a normal-mode session (one interface board on a simulated bus that goes silent after the
+	// start): only there does the library evaluate MSG_PKT_CAPACITY - in low-level debug mode every uplink message goes
+	// straight to the read queue and the capacity in force stays 64 whatever is announced
+	bool live_capacity = dp.chance(80);
+	if (live_capacity) {
+		NormalOpts o;
+		o.gen.max_boards = 1; o.gen.min_boards = 1; o.gen.max_items = 0; o.gen.max_trains = 0;
+		o.present_mode = 1; o.max_unknown = 0;
+		n.prepare(dp, sched, o);
+	} else own.world(sched);
+	Session &s = live_capacity ? n.s : own;
 	static const unsigned FI[] = {0, 1, 5, 50};
 	unsigned fi = FI[dp.pick(4)];
 	unsigned nthreads = 1 + dp.weighted({6, 3, 2, 1});
@@ -82,7 +94,7 @@ void prop(DP &dp, const ref::Bytes &sched, Ctx &ctx) {
 	// and released by the receiver thread when answers arrive (injected by thread 0) - concurrently with the other senders.
 	// "Once flushed every message ... appears exactly once" is then judged after everything has been answered.
 	bool deferred_mode = dp.chance(70);
-	ctx.desc << "C01 auto_flush=" << fi << "ms threads=" << nthreads << (hot ? " hot-payloads" : "") << (deferred_mode ? " deferred-mode" : "") << "\n";
+	ctx.desc << "C01 auto_flush=" << fi << "ms threads=" << nthreads << (hot ? " hot-payloads" : "") << (deferred_mode ? " deferred-mode" : "") << (live_capacity ? " normal-mode(live capacity)" : " debug-mode") << "\n";
 
 	// cumulative response budget per node keeps every message "accepted for immediate
 	// transmission" (<= 48 bytes outstanding even if nothing is ever answered)
@@ -193,13 +205,22 @@ void prop(DP &dp, const ref::Bytes &sched, Ctx &ctx) {
 		ctx.desc << "\n";
 	}
 
-	if (s.start_debug(fi) != 0) ctx.fail("START: debug-mode start returned non-zero");
+	size_t wire0 = 0;          // the wire is judged from here on (behind the start-up dialogue of a normal-mode session)
+	if (live_capacity) {
+		if (n.start(fi) != 0) ctx.fail("START: valid one-board configuration rejected");
+		s.settle();
+		n.bus.silent = true;
+		Session::drain_messages();
+		Session::drain_errors();
+		wire0 = s.down.size();
+	} else if (s.start_debug(fi) != 0) ctx.fail("START: debug-mode start returned non-zero");
 
 	// thread 0 = harness thread (runs its plan inline so that capacity announcements can be
 	// injected and settled); the others are application threads
 	std::vector<pthread_t> th(nthreads);
 	for (unsigned t = 1; t < nthreads; t++) vf_pthread_create(&th[t], nullptr, thread_main, &plans[t]);
 	std::vector<std::pair<size_t, unsigned>> cap_events;    // (downlink offset at announcement, capacity)
+	std::vector<size_t> cap_settled;                        // downlink offset once the announcement has surely been processed
 	// one uplink message per (node, answer type of a request type sent to it): credits whatever is outstanding
 	auto inject_answers = [&]() {
 		for (auto &kv : node_types)
@@ -225,9 +246,10 @@ void prop(DP &dp, const ref::Bytes &sched, Ctx &ctx) {
 			m.type = M::PKT_CAPACITY;
 			m.seq = s.next_up_seq({});
 			m.data = {(uint8_t) op.val};
-			cap_events.emplace_back(s.down.size(), op.val);
+			cap_events.emplace_back(s.down.size() - wire0, op.val);
 			s.inject_packet({m});
 			s.settle();
+			cap_settled.push_back(s.down.size() - wire0);
 			break;
 		}
 		}
@@ -249,7 +271,7 @@ void prop(DP &dp, const ref::Bytes &sched, Ctx &ctx) {
 		}
 		Session::drain_messages();
 	}
-	ref::Bytes wire = s.down;
+	ref::Bytes wire = s.since(wire0);
 	unsigned preempt = vf_preemptions_taken();
 
 	// (1) well-formed packet stream
@@ -314,11 +336,27 @@ void prop(DP &dp, const ref::Bytes &sched, Ctx &ctx) {
 	for (auto &p : dec.packets) {
 		if (p.msgs.size() < 2) continue;
 		unsigned cap = 64;
-		for (auto &ce : cap_events)
-			if (ce.first <= p.end && ce.second > cap) cap = ce.second;
+		if (!live_capacity) {
+			// debug mode: announcements are not evaluated today (64 stays in force); an implementation that did evaluate them
+			// would still satisfy the property, so the bound is the largest capacity announced so far
+			for (auto &ce : cap_events)
+				if (ce.first <= p.end && ce.second > cap) cap = ce.second;
+		} else {
+			// normal mode: the capacity in force while the packet was filled. The packet was filled between the end of the
+			// previous packet (p.start) and p.end. An announcement counts from the moment it is injected; it stops counting once
+			// its successor has surely been processed (settled) before the packet began. Values up to 64 mean 64.
+			cap = 0;
+			for (size_t i = 0; i <= cap_events.size(); i++) {
+				// i == 0: the capacity of the start (64); i >= 1: announcement i-1
+				unsigned eff = i == 0 ? 64 : (cap_events[i - 1].second <= 64 ? 64 : cap_events[i - 1].second);
+				bool announced = i == 0 || cap_events[i - 1].first <= p.end;
+				bool superseded = i < cap_events.size() && cap_settled[i] < p.start;      // strictly: at equal offsets the successor may have arrived while this packet was already being filled
+				if (announced && !superseded && eff > cap) cap = eff;
+			}
+		}
 		if (p.payload.size() > cap)
-			ctx.fail("CAPACITY: packet with " + std::to_string(p.msgs.size()) + " messages has " +
-			         std::to_string(p.payload.size()) + " payload bytes, largest capacity in force " + std::to_string(cap));
+			ctx.fail("CAPACITY: packet with " + std::to_string(p.msgs.size()) + " messages has " + std::to_string(p.payload.size()) + " payload bytes, " +
+			         (live_capacity ? "capacity in force while it was filled " : "largest capacity announced ") + std::to_string(cap));
 	}
 
 	s.stop();
@@ -332,6 +370,8 @@ void prop(DP &dp, const ref::Bytes &sched, Ctx &ctx) {
 	if (crc_esc) ctx.tag("escaped-crc");
 	if (big_image) ctx.tag("image>312");
 	if (capnt) ctx.tag("capacity>64");
+	if (live_capacity) ctx.tag("normal-mode(live capacity)");
+	if (live_capacity && capnt) ctx.tag("live capacity>64");
 	if (multi) ctx.tag("multi-message-packet");
 	if (nthreads > 1 && preempt) ctx.tag("threads+preemption");
 	if (deferred_mode) ctx.tag(nthreads > 1 ? "deferred-release-racing-senders" : "deferred-release");
